@@ -21,5 +21,5 @@ def _plan(tier, seed):
 
 
 def required(tier, classes, records):
-    pats = [("box wall", r"wall:box"), ("slanted wall", r"wall:slant"), ("polygon wall", r"wall:poly"), ("clockwise input", r"-cw"), ("orthogonal", r"\|orth\|"), ("non-orthogonal", r"\|nonorth\|"), ("no guards", r"\|g0\|"), ("non-orthogonal without guard cells (contours must be extended to reach the wall)", r"\|nonorth\|.*\|g0\|"), ("guards", r"\|g[1-9]\|"), ("double null", r"^(cdn|ldn|udn)")]
+    pats = [("box wall", r"wall:box"), ("slanted wall", r"wall:slant"), ("polygon wall", r"wall:poly"), ("clockwise input", r"-cw"), ("orthogonal", r"\|orth\|"), ("non-orthogonal", r"\|nonorth\|"), ("no guards", r"\|g0\|"), ("non-orthogonal without guard cells (contours must be extended to reach the wall)", r"\|nonorth\|.*\|g0\|"), ("guards", r"\|g[1-9]\|"), ("double null", r"^(cdn|ldn|udn)"), ("wall that is not star-shaped from the centre of the psi box, with cells behind it", r"\|hidden-faces$")]
     return need_classes(classes, pats)
